@@ -21,6 +21,7 @@ AlphabetQuick == {"RU", "RT", "RH", "SU1", "SF", "AS2", "RD"}
 NoOps == {}
 PreNone == {"none"}
 PreSib == {"none", "RU", "RD", "AS2", "SU1"}
+PreSibQuick == {"none", "RD", "AS2"}
 PreTamper == {"none", "AS2", "SU1"}
 PreTamperQuick == {"none", "AS2"}
 SibAll == AllSibFields
